@@ -49,13 +49,27 @@ def method(chk, cls: ClassInfo, name: str) -> FuncInfo:
 def self_calls(fi: FuncInfo, names: Set[str]) -> List[Tuple[ast.stmt, ast.Call]]:
     """(enclosing simple statement, call) for every `self.<name>(...)` / `super().<name>(...)` call in fi."""
     out = []
+    rd = None
+
+    def _is_self_method(e) -> bool:
+        if isinstance(e, ast.Attribute) and e.attr in names:
+            v = e.value
+            return (isinstance(v, ast.Name) and v.id in ("self", "cls")) or (isinstance(v, ast.Call) and isinstance(v.func, ast.Name) and v.func.id == "super")
+        if isinstance(e, ast.IfExp):  # a method value chosen by a conditional expression
+            return _is_self_method(e.body) and _is_self_method(e.orelse)
+        return False
     for c in calls_in(fi.node):
         f = c.func
-        if isinstance(f, ast.Attribute) and f.attr in names:
-            v = f.value
-            if (isinstance(v, ast.Name) and v.id in ("self", "cls")) or (
-                isinstance(v, ast.Call) and isinstance(v.func, ast.Name) and v.func.id == "super"):
-                out.append((fi.module.enclosing_stmt(c), c))
+        if _is_self_method(f):
+            out.append((fi.module.enclosing_stmt(c), c))
+        elif isinstance(f, ast.Name):
+            # `m = self._fit if ... else self._adaptive_fit; m(data)`: a local bound only to such method values
+            from engine.dataflow import ReachingDefs
+            rd = rd or ReachingDefs(fi.node)
+            st = fi.module.enclosing_stmt(c)
+            vals = [rd.value_of(d) for d in rd.reaching(st, f.id)] if st is not None else []
+            if vals and all(v is not None and _is_self_method(v) for v in vals):
+                out.append((st, c))
     return out
 
 
